@@ -46,7 +46,8 @@ claim("C20", "other",
 claim("C03", "other",
       "Bounded symbolic check of every arithmetic method on chains of 2-3 (thorough 4) sites: tensor entries and prefactors are solver variables, structures "
       "(bond dims, label patterns, centre position of each operand) are enumerated; obligations are dense identities, the label invariant on the result, the "
-      "sector shift and unchanged inputs. Counterexamples are replayed on the float build before being reported.",
+      "sector shift and unchanged inputs (dense object AND sector, bond labels, centre of every operand against a snapshot). Complex entries on the two-site structures in the "
+      "quick tier, everywhere in thorough. Counterexamples are replayed on the float build before being reported.",
       "Real arithmetic instead of float64; sizes beyond the bounds are outside the claim; operation sequences are covered through the inductive label "
       "invariant (C04 takes it as precondition), not executed as sequences.",
       "symbolic execution of the real NumPy code on z3-valued object arrays + polynomial normal form + z3 (QF_NRA)",
@@ -80,7 +81,8 @@ claim("C05", "other",
 claim("C06", "other",
       "Representation invariant as one-step induction: add/scale/move_qnidx/Mpo.apply/Mpo.conj_trans with SYMBOLIC integer labels, qntot and operator charge (all values "
       "at once); the real _update_mps (one/two-site, truncating or not) from an arbitrary valid pre-state; constructors (hartree_product_state for every occupation and "
-      "centre, Mps.random with symbolic draws, ground_state, MpDm.max_entangled_*); masks. Together with the invariant obligations inside C03/C04/C05 every chain operation "
+      "centre, Mps.random with symbolic draws incl. the sectors next to the empty/full one with bond limits 1-2, ground_state, MpDm.max_entangled_*); masks; apply leaves its "
+      "operands' sector and labels alone. Together with the invariant obligations inside C03/C04/C05 every chain operation "
       "maps valid states to valid states with the advertised sector shift.",
       "Whole optimiser/evolution loops are covered by composition of the step lemmas, not executed end to end; LAPACK by contract; trees under C11.",
       "symbolic execution with symbolic integer labels (z3 LIA+NRA) and LAPACK contract stubs",
@@ -89,14 +91,16 @@ claim("C06", "other",
 claim("C16", "other",
       "BasisSHO.op_mat executed with symbolic omega>0 and origin x0 and exact algebraic sqrt(n): commutator, ladder relations, every product symbol vs the written-order "
       "matrix product, powers vs k-fold products away from the truncation edge, shifted origin; spin/electron/multi-electron/HOPS matrices with symbolic factors; "
-      "HolsteinModel (schemes 1-4, open/periodic), SpinBosonModel, TI1DModel term lists evaluated densely with symbolic couplings against the documentation formula.",
+      "HolsteinModel (schemes 1-4, open/periodic, scalar coupling and an explicit non-symmetric coupling matrix with independent symbolic entries), SpinBosonModel, TI1DModel "
+      "term lists evaluated densely with symbolic couplings against the documentation formula.",
       "BasisSineDVR and the LAPACK-defined DVR rotation are NOT covered (transcendental integrals / eigh); odd general powers carry a float constant and are only tied "
       "numerically; Holstein frequencies concrete.",
       "symbolic execution with exact algebraic square-root atoms + z3 (QF_NRA)",
       "DESIGN.md section 1, C16")
 
 claim("C15", "other",
-      "Every public arithmetic operator of Op/OpSum, squeeze_identity, simplify(atol) with symbolic atol and __eq__/__hash__ on leaves with symbolic real/complex factors "
+      "Every public arithmetic operator of Op/OpSum, squeeze_identity, simplify(atol) with symbolic atol (exact documented semantics: merge equal terms, then drop a group iff its "
+      "merged factor is <= atol) and __eq__/__hash__ on leaves with symbolic real/complex factors "
       "(pool of 8 operators: multi-site, repeated DoF, identities inside, 1- and 2-component quantum numbers), against an independent dense denotation over three spin DoFs; "
       "expression shapes enumerated to depth 2.",
       "Real arithmetic for scalars (1/s exact); shapes and leaf pool enumerated.",
@@ -106,7 +110,8 @@ claim("C15", "other",
 claim("C14", "other",
       "(a) The real TdMpsJob.dump_dict against a model file system with solver-chosen crash instant and solver-chosen pre-state of the directory (result file and backup "
       "absent/partial/complete, constrained only by 'a complete file exists'): inductive over histories incl. restarts into a crashed directory. (b) dump->load of "
-      "Mps/MpDm/Mpo/MatrixProduct through an in-memory savez/load with symbolic tensors, labels, centre, direction, prefactor; old format versions.",
+      "Mps/MpDm/Mpo/MatrixProduct through an in-memory savez/load with symbolic tensors, labels, centre, direction, prefactor; old format versions; float-build round trips for "
+      "every (matrix dtype, prefactor kind) combination.",
       "savez modelled as create/partial/complete; rename/remove/replace atomic; NumPy serialisation itself and the spill-to-disk path are not covered.",
       "symbolic execution against a model file system (crash point and directory state as solver integers) + in-memory store round trip",
       "DESIGN.md section 1, C14")
@@ -114,7 +119,8 @@ claim("C14", "other",
 claim("C13", "other",
       "About 35 public methods of Mps/Mpo/MpDm on operands with symbolic tensors/prefactors: operands represent their snapshot afterwards (solver identity), keep labels, "
       "centre, direction; result shares no tensor buffer or label list with an operand; overwrite-the-result-then-observe-the-operands and vice versa. evolve_exact with "
-      "symbolic non-zero offset; propagation-and-compression evolve for real/imaginary time.",
+      "symbolic non-zero offset; propagation-and-compression evolve for real/imaginary time; operators that carry charge; float-build instances (dtype-dependent buffer sharing) for "
+      "complex chains and nine tree operations on real and complex states.",
       "2-site chains (thorough 3); TDVP schemes not executed; canonicalise/compress are identity stubs inside the evolve harness; documented in-place operations exempt.",
       "symbolic execution + snapshot/overwrite-and-observe obligations decided by z3; buffer overlap via np.shares_memory",
       "DESIGN.md section 1, C13")
@@ -131,7 +137,8 @@ claim("C01", "other",
 claim("C07", "other",
       "The batched expectations() fast path (hash-keyed environment cache) against expectation() and the dense definition for every sharing pattern of 2-3 operators over 2-3 "
       "sites (solver-valued state tensors and operator site matrices, optional independent bra, list and reversed list); expectation / transition amplitude incl. complex "
-      "data on 2 sites; occupations; one-site, two-site, electronic reduced density matrices against partial traces; MpDm expectation path.",
+      "data on 2 sites; occupations; one-site, two-site, electronic reduced density matrices against partial traces (Mps and generic real/complex density operators); MpDm "
+      "expectation path; query -> in-place modification -> query histories on one object.",
       "Entropies (eigh/log of float spectra) are NOT covered; the scalar prefactor is not part of expectation values by design; complex states only on 2 sites.",
       "symbolic execution with enumerated cache-sharing patterns; polynomial identities decided by normal form + z3",
       "DESIGN.md section 1, C07")
